@@ -13,8 +13,8 @@ the scheduler-chosen hash, the plain string, or ``int(name)``).
 from sim.values import V, key, assign_hashes, order_signature, HASH_MODES
 from models.fa import Nfa
 
-PLAIN_STATES = ["q0", "q1", "q2", "q3", "q4", "q5"]
-INT_STATES = ["0", "1", "2", "3", "4", "5"]
+PLAIN_STATES = ["q0", "q1", "q2", "q3", "q4", "q5", "q6", "q7"]
+INT_STATES = ["0", "1", "2", "3", "4", "5", "6", "7"]
 # names imitating the library's own merged / fresh names (C01, C03 quantifier)
 ADVERSARIAL_STATES = ["a", "b", "a;b", "c", "b;c", "a;b;c", "TRASH", "Empty", "TrashNode",
                       "a; b", "b; a", "a;TRASH", "", ";", "a; b; c", "0", "0;1", "1"]
@@ -36,6 +36,8 @@ def gen_fa(rng, kind=None, max_states=5, max_symbols=3, max_trans=9, plain_symbo
     else:
         pool, valmode = PLAIN_STATES, rng.pick(["V", "V", "str"])
     ns = rng.weighted([(1, 1), (2, 3), (3, 5), (4, 5), (5, 3)])
+    if max_states > 5:
+        ns = rng.randint(4, max_states)
     ns = min(ns, max_states)
     if pool is ADVERSARIAL_STATES:
         states = rng.sample(pool, ns)
